@@ -162,6 +162,8 @@ pub fn evaluate_ast(
     call_depth: usize,
     source: Rc<str>,
 ) -> Result<Value, RuntimeError> {
+    #[cfg(feature = "verif-hooks")]
+    crate::verif_hooks::enter_eval(call_depth);
     match &expr.node {
         Expr::Number(n) => Ok(Number(*n)),
         Expr::String(s) => Ok(heap.borrow_mut().insert_string(s.clone())),
